@@ -41,6 +41,7 @@ def cases(tier, rng, run):
 
     for _ in range(600 if tier == "quick" else 8000):
         out.append(Case(c12.gen(rng, tier), "prov-history"))
+    out += [Case(l, "prov-history") for l in c12.live_view_histories()]
     # a name bound in one way and met again in another, zero sizes included (exhaustive small family)
     for c in gen_ctx.rebinding_contexts() + gen_ctx.group_contexts():
         out.append(Case(c.ctx_line(), "rebind", {"ctx": c}))
